@@ -544,136 +544,230 @@ def emit_scaling(d: dict, hdr: str) -> str:
 
 
 def _pipeline() -> dict:
-    """Facts of the receive pipeline and of device set-up read from the SOURCE (ast of the imported modules' text):
-    the except clauses of frame_producer / frame_consumer in order, what they do, where task_done sits; the real
-    subclass relation between exception families and the classes those clauses name; the set-up request loop, the
-    gate of EcoMAX.async_setup, the table the device really uses, and which event handlers wait for product
-    information (Props/C09Contain, Props/C16 pin each of them to the statement by `decide`)."""
-    import ast
+    """Facts of the receive pipeline and of device set-up, PROBED on the imported code (behaviour, not syntax, so that a
+    behaviour-preserving rewrite leaves them unchanged): what frame_consumer / frame_producer do when obtaining the entry,
+    handling, or reader.read() raises an exception of each family; how often request() transmits for retries = 0..3 and
+    what it raises; what async_setup makes of failed requests; what EcoMAX.async_setup waits for and in which order it
+    requests; which subscribed handlers block until product information is there
+    (Props/C09Contain, Props/C16 pin each of them to the statement by `decide`)."""
     import asyncio
     import struct
-    import textwrap
+    import types
     from pyplumio import exceptions as exc_mod
     from pyplumio import protocol as proto_mod
+    from pyplumio.const import DeviceType, FrameType, ProductType
     from pyplumio.devices import PhysicalDevice
     from pyplumio.devices import ecomax as ecomax_mod
     from pyplumio.devices import mixer as mixer_mod
     from pyplumio.devices import thermostat as thermostat_mod
+    from pyplumio.structures.network_info import NetworkInfo
 
-    def fn_ast(fn):
-        return ast.parse(textwrap.dedent(inspect.getsource(fn))).body[0]
-
-    def first(node, kind):
-        return next(n for n in ast.walk(node) if isinstance(n, kind))
-
-    def handlers_of(try_node):
-        rows = []
-        for h in try_node.handlers:
-            names = ([ast.unparse(e) for e in h.type.elts] if isinstance(h.type, ast.Tuple)
-                     else [ast.unparse(h.type)] if h.type is not None else ["BaseException"])
-            leaves = any(isinstance(n, (ast.Break, ast.Return, ast.Raise)) for n in ast.walk(h))
-            rows.append([names, "break" if leaves else "continue"])
-        return rows
-
-    def calls_in(nodes):
-        out = []
-        for st in nodes:
-            for n in ast.walk(st):
-                if isinstance(n, ast.Call):
-                    out.append(n.func.attr if isinstance(n.func, ast.Attribute) else ast.unparse(n.func))
-        return out
-
-    prod = fn_ast(proto_mod.AsyncProtocol.frame_producer)
-    ploop = first(prod, ast.While)
-    ptry = next(n for n in ploop.body if isinstance(n, ast.Try))
-    cons = fn_ast(proto_mod.AsyncProtocol.frame_consumer)
-    cloop = first(cons, ast.While)
-    ctry = next(n for n in cloop.body if isinstance(n, ast.Try))
-    out = {
-        "producer_handlers": handlers_of(ptry),
-        "producer_try_calls": calls_in(ptry.body),
-        "consumer_handlers": handlers_of(ctry),
-        "consumer_try_calls": calls_in(ctry.body),
-        "consumer_finally_calls": calls_in(ctry.finalbody),
-        "consumer_get_outside_try": "get" in calls_in([n for n in cloop.body if not isinstance(n, ast.Try)]),
-    }
-    # the subclass relation, asked of the interpreter: exception FAMILIES (every representative must agree) x the class
-    # expressions the clauses name, evaluated in protocol.py's own namespace
     protocol_family = [exc_mod.ProtocolError] + [c for c in vars(exc_mod).values()
                                                  if isinstance(c, type) and issubclass(c, exc_mod.ProtocolError)]
     families = {
         "ProtocolError": protocol_family,
-        "OSError": [OSError, ConnectionResetError, ConnectionError, BrokenPipeError, FileNotFoundError, PermissionError],
-        "TimeoutError": [asyncio.TimeoutError, TimeoutError],
-        "other": [ValueError, KeyError, IndexError, LookupError, TypeError, AttributeError, struct.error, UnicodeDecodeError,
-                  UnicodeEncodeError, ZeroDivisionError, OverflowError, ArithmeticError, AssertionError, RuntimeError,
-                  NotImplementedError, RecursionError, StopIteration, StopAsyncIteration, EOFError, BufferError, NameError,
-                  ImportError, ModuleNotFoundError, MemoryError, ReferenceError, SystemError, Exception,
-                  exc_mod.PyPlumIOError, exc_mod.ConnectionFailedError, asyncio.InvalidStateError, asyncio.QueueFull, asyncio.QueueEmpty],
+        "OSError": [OSError, ConnectionResetError, BrokenPipeError, FileNotFoundError],
+        "TimeoutError": [asyncio.TimeoutError],
+        "other": [ValueError, KeyError, IndexError, TypeError, AttributeError, struct.error, UnicodeDecodeError, ZeroDivisionError,
+                  OverflowError, AssertionError, RuntimeError, NotImplementedError, RecursionError, EOFError, MemoryError,
+                  Exception, exc_mod.PyPlumIOError, exc_mod.ConnectionFailedError, asyncio.QueueFull],
         "CancelledError": [asyncio.CancelledError],
     }
-    names = sorted({n for rows in (out["producer_handlers"], out["consumer_handlers"]) for ns, _ in rows for n in ns})
-    isa = []
-    for fam, reps in families.items():
-        for n in names:
-            target = eval(n, vars(proto_mod))  # noqa: S307  a class expression taken from an except clause of protocol.py
-            verdicts = {issubclass(r, target) for r in reps}
-            isa.append([fam, n, 1 if verdicts == {True} else 0 if verdicts == {False} else 2])
-    out["exc_isa"] = isa
-    out["exc_families"] = {k: [c.__module__ + "." + c.__qualname__ for c in v] for k, v in families.items()}
-    # ---- device set-up
-    req = fn_ast(PhysicalDevice.request)
-    rloop = first(req, ast.While)
-    rtry = next(n for n in rloop.body if isinstance(n, ast.Try))
-    out["request_loop_cond"] = ast.unparse(rloop.test)
 
-    def loop_runs(r):
+    def mk(cls):
+        for args in (("probe",), (), ("utf-8", b"\xff", 0, 1, "probe")):
+            try:
+                return cls(*args)
+            except Exception:  # noqa: BLE001
+                continue
+        raise RuntimeError(cls)
+
+    async def spin(n=30):
+        for _ in range(n):
+            await asyncio.sleep(0)
+
+    async def probe_consumer(cls, site):
+        proto = proto_mod.AsyncProtocol(consumers_count=1)
+        proto.connected.set()
+        q = asyncio.Queue()
+
+        class Dev:
+            def handle_frame(self, frame):
+                raise mk(cls)
+
+        async def entry(device_type):
+            if site == "entry":
+                raise mk(cls)
+            return Dev()
+
+        proto.get_device_entry = entry
+        for _ in range(2):
+            q.put_nowait(types.SimpleNamespace(sender=DeviceType.ECOMAX))
+        task = asyncio.ensure_future(proto.frame_consumer(q))
+        await spin()
+        ok = (not task.done()) and q._unfinished_tasks == 0 and q.empty()
+        task.cancel()
+        await asyncio.gather(task, return_exceptions=True)
+        return 1 if ok else 0
+
+    async def probe_producer(cls):
+        proto = proto_mod.AsyncProtocol()
+        proto.connected.set()
+        lost, reads = [], []
+
+        async def connection_lost():
+            lost.append(1)
+
+        proto.connection_lost = connection_lost
+
+        class Reader:
+            async def read(self):
+                reads.append(1)
+                if len(reads) == 1:
+                    raise mk(cls)
+                await asyncio.sleep(3600)
+
+        class Writer:
+            async def write(self, frame):
+                return None
+
+        queues = proto_mod.Queues(read=asyncio.Queue(), write=asyncio.Queue())
+        task = asyncio.ensure_future(proto.frame_producer(queues, reader=Reader(), writer=Writer()))
+        await spin()
+        if lost:
+            r = "break"
+        elif len(reads) >= 2 and not task.done():
+            r = "continue"
+        else:
+            r = "propagates"
+        task.cancel()
+        await asyncio.gather(task, return_exceptions=True)
+        for t in list(getattr(proto, "tasks", [])):
+            t.cancel()
+        return r
+
+    async def probe_request(r):
+        q = asyncio.Queue()
+        dev = ecomax_mod.EcoMAX(q, NetworkInfo())
+        ft = FrameType.REQUEST_UID
         try:
-            return int(bool(eval(ast.unparse(rloop.test), {"retries": r})))  # noqa: S307  the loop test of request()
+            await dev.request("never_provided", ft, retries=r, timeout=0.002)
+            raised = ("-", 99)
+        except Exception as e:  # noqa: BLE001
+            raised = (type(e).__name__, next((i for i, a in enumerate(e.args) if a == ft), 99))
+        return [r, q.qsize(), raised[0], raised[1]]
+
+    async def probe_setup_errors():
+        table = ecomax_mod.SETUP_FRAME_TYPES[:3]
+
+        class Dev(PhysicalDevice):
+            address = DeviceType.ECOMAX
+            _setup_frames = table
+
+            async def request(self, name, frame_type, retries=3, timeout=3.0):
+                if frame_type != table[0].frame_type:
+                    raise ValueError("probe", frame_type)
+                return 1
+
+        try:
+            dev = Dev(asyncio.Queue(), NetworkInfo())
+            await asyncio.wait_for(dev.async_setup(), 1.0)
+            return int(list(dev.data.get("frame_errors")) == [d.frame_type for d in table[1:]] and dev.data.get("loaded") is True)
         except Exception:  # noqa: BLE001
-            return 2
-    out["request_loop_test"] = [[r, loop_runs(r)] for r in (0, 1, 2, 3)]
-    out["request_retry_on"] = [n for ns, _ in handlers_of(rtry) for n in ns]
-    out["request_try_calls"] = calls_in(rtry.body)
-    after = [n for n in req.body if isinstance(n, ast.Raise)]
-    out["request_raises"] = ast.unparse(after[0].exc.func) if after else "-"
-    out["request_raise_args"] = len(after[0].exc.args) if after else 0
-    setup = fn_ast(PhysicalDevice.async_setup)
-    gather = next(n for n in ast.walk(setup) if isinstance(n, ast.Call) and ast.unparse(n.func) == "asyncio.gather")
-    out["setup_return_exceptions"] = any(k.arg == "return_exceptions" and ast.unparse(k.value) == "True" for k in gather.keywords)
-    errs = next((n for n in ast.walk(setup) if isinstance(n, ast.ListComp)), None)
-    out["setup_errors_expr"] = ast.unparse(errs) if errs is not None else "-"
-    idx = [n.slice.value for n in ast.walk(errs.elt) if isinstance(n, ast.Subscript) and isinstance(n.slice, ast.Constant)
-           and isinstance(n.value, ast.Attribute) and n.value.attr == "args"] if errs is not None else []
-    out["setup_errors_arg_index"] = idx[0] if len(idx) == 1 and isinstance(idx[0], int) and idx[0] >= 0 else 99
-    esetup = fn_ast(ecomax_mod.EcoMAX.async_setup)
-    gate = []
-    for n in ast.walk(esetup):
-        if isinstance(n, ast.Await) and isinstance(n.value, ast.Call) and isinstance(n.value.func, ast.Attribute) \
-                and n.value.func.attr in ("wait_for", "get") and n.value.args:
-            gate.append(str(eval(ast.unparse(n.value.args[0]), vars(ecomax_mod))))  # noqa: S307
-    out["setup_gate"] = gate
+            return 0
+
+    async def probe_gate():
+        asked = []
+
+        class Dev(ecomax_mod.EcoMAX):
+            async def request(self, name, frame_type, retries=3, timeout=3.0):
+                asked.append(int(frame_type))
+                return 1
+
+        dev = Dev(asyncio.Queue(), NetworkInfo())
+        task = asyncio.ensure_future(dev.async_setup())
+        await spin()
+        opened = []
+        for name, value in (("product", types.SimpleNamespace(type=ProductType.ECOMAX_P, model="probe")), ("state", 0), ("password", "0000"),
+                            ("regdata", {}), ("modules", None), ("sensors", {})):
+            before = len(asked)
+            try:
+                await asyncio.wait_for(dev.dispatch(name, value), 0.2)
+            except Exception:  # noqa: BLE001
+                pass
+            await spin()
+            if len(asked) > before:
+                opened.append(name)
+        task.cancel()
+        await asyncio.gather(task, return_exceptions=True)
+        await dev.shutdown()
+        return opened, asked
+
+    async def probe_waiters():
+        rows = []
+
+        def fresh(cls):
+            parent = ecomax_mod.EcoMAX(asyncio.Queue(), NetworkInfo())
+            if cls is ecomax_mod.EcoMAX:
+                return parent, parent
+            return parent, cls(asyncio.Queue(), parent=parent, index=0)
+
+        for cls in (ecomax_mod.EcoMAX, mixer_mod.Mixer, thermostat_mod.Thermostat):
+            _, obj = fresh(cls)
+            subs = [(event, i) for event, cbs in obj._callbacks.items() for i in range(len(cbs))]
+            for event, i in subs:
+                parent, obj = fresh(cls)
+                cb = obj._callbacks[event][i]
+                fn = getattr(cb, "_callback", cb)
+                name = getattr(fn, "__name__", repr(fn))
+                waits = 0
+                try:
+                    await asyncio.wait_for(fn([]), 0.01)
+                except asyncio.TimeoutError:
+                    # it blocks without product information; with it, it must come back
+                    parent2, obj2 = fresh(cls)
+                    await parent2.dispatch("product", types.SimpleNamespace(type=ProductType.ECOMAX_P, model="probe"))
+                    fn2 = getattr(obj2._callbacks[event][i], "_callback", obj2._callbacks[event][i])
+                    try:
+                        await asyncio.wait_for(fn2([]), 0.2)
+                        waits = 1
+                    except asyncio.TimeoutError:
+                        waits = 2
+                    except Exception:  # noqa: BLE001
+                        waits = 1
+                    await parent2.shutdown()
+                except Exception:  # noqa: BLE001
+                    waits = 0
+                await parent.shutdown()
+                rows.append([cls.__name__, str(event), name, waits])
+        return rows
+
+    async def main():
+        out = {}
+        cons, prod, isa = [], [], []
+        for fam, reps in families.items():
+            for site in ("entry", "handle"):
+                v = {await probe_consumer(c, site) for c in reps}
+                cons.append([fam, site, v.pop() if len(v) == 1 else 2])
+            v = {await probe_producer(c) for c in reps}
+            prod.append([fam, v.pop() if len(v) == 1 else "mixed"])
+            v = {issubclass(c, Exception) for c in reps}
+            isa.append([fam, "Exception", (1 if v.pop() else 0) if len(v) == 1 else 2])
+        out["consumer_probe"], out["producer_probe"], out["exc_isa"] = cons, prod, isa
+        out["request_probe"] = [await probe_request(r) for r in (0, 1, 2, 3)]
+        out["setup_errors_probe"] = await probe_setup_errors()
+        out["setup_gate"], out["setup_request_order"] = await probe_gate()
+        out["handler_waits_product"] = await probe_waiters()
+        return out
+
+    import logging
+    logging.disable(logging.CRITICAL)     # the probes make the library log what it contains
+    try:
+        out = asyncio.run(main())
+    finally:
+        logging.disable(logging.NOTSET)
+    out["exc_families"] = {k: [c.__module__ + "." + c.__qualname__ for c in v] for k, v in families.items()}
     out["setup_frames_of_device"] = [[int(d.frame_type), d.provides] for d in ecomax_mod.EcoMAX._setup_frames]
-    # which event handlers wait for product information: `self.subscribe(<name>, [filter(]self.<method>[)])` in __init__,
-    # and an `await <receiver>.get(ATTR_PRODUCT …)` / wait_for in the method
-    rows = []
-    for mod, cls in ((ecomax_mod, ecomax_mod.EcoMAX), (mixer_mod, mixer_mod.Mixer), (thermostat_mod, thermostat_mod.Thermostat)):
-        init = fn_ast(cls.__init__)
-        for n in ast.walk(init):
-            if isinstance(n, ast.Call) and isinstance(n.func, ast.Attribute) and n.func.attr in ("subscribe", "subscribe_once") and len(n.args) == 2:
-                event = str(eval(ast.unparse(n.args[0]), vars(mod)))  # noqa: S307
-                meth = next((a.attr for a in ast.walk(n.args[1]) if isinstance(a, ast.Attribute) and isinstance(a.value, ast.Name) and a.value.id == "self"), None)
-                if meth is None or not hasattr(cls, meth):
-                    rows.append([cls.__name__, event, ast.unparse(n.args[1]), 2])
-                    continue
-                body = fn_ast(getattr(cls, meth))
-                waits = any(
-                    isinstance(a, ast.Await) and isinstance(a.value, ast.Call) and isinstance(a.value.func, ast.Attribute)
-                    and a.value.func.attr in ("get", "wait_for") and a.value.args
-                    and str(eval(ast.unparse(a.value.args[0]), vars(mod))) == "product"  # noqa: S307
-                    for a in ast.walk(body))
-                rows.append([cls.__name__, event, meth, int(waits)])
-    out["handler_waits_product"] = rows
     return out
 
 
@@ -681,36 +775,31 @@ def _emit_pipeline(p: dict, hdr: str) -> str:
     def strs(xs):
         return "[" + ", ".join(lean_str(x) for x in xs) + "]"
 
-    def hrows(rows):
-        return lean_list([f"({strs(ns)}, {lean_str(act)})" for ns, act in rows], 1)
-
     body = hdr + "namespace PlumVerif.Gen\n\n"
-    body += "/-- protocol.py `frame_producer`: the except clauses of the loop's try, in order: (classes named, break | continue) -/\n"
-    body += "def producerHandlers : List (List String × String) := " + hrows(p["producer_handlers"]) + "\n"
-    body += "def producerTryCalls : List String := " + strs(p["producer_try_calls"]) + "\n\n"
-    body += "/-- protocol.py `frame_consumer`: except clauses, the calls inside the try body and inside `finally` -/\n"
-    body += "def consumerHandlers : List (List String × String) := " + hrows(p["consumer_handlers"]) + "\n"
-    body += "def consumerTryCalls : List String := " + strs(p["consumer_try_calls"]) + "\n"
-    body += "def consumerFinallyCalls : List String := " + strs(p["consumer_finally_calls"]) + "\n\n"
-    body += ("/-- issubclass(<every representative of the family>, <class named by a clause>) as the interpreter answers:\n"
-             "    1 yes, 0 no, 2 the representatives disagree -/\n")
+    body += ("/-- protocol.py `frame_producer`, probed: `reader.read()` raises an exception of the family once -> the loop goes on to the next\n"
+             "    read (continue) / schedules connection_lost and ends (break) / ends with the exception (propagates) -/\n")
+    body += "def producerProbe : List (String × String) := " + lean_list(
+        [f"({lean_str(f)}, {lean_str(r)})" for f, r in p["producer_probe"]], 3) + "\n\n"
+    body += ("/-- protocol.py `frame_consumer`, probed with two frames: obtaining the entry / handling raises an exception of the family ->\n"
+             "    1 = the consumer is still running and both frames are acknowledged (task_done), 0 = not, 2 = representatives disagree -/\n")
+    body += "def consumerProbe : List (String × String × Nat) := " + lean_list(
+        [f"({lean_str(f)}, {lean_str(s_)}, {v})" for f, s_, v in p["consumer_probe"]], 3) + "\n\n"
+    body += "/-- issubclass(<every representative of the family>, <class>): 1 yes, 0 no, 2 the representatives disagree -/\n"
     body += "def excIsA : List (String × String × Nat) := " + lean_list(
         [f"({lean_str(f)}, {lean_str(n)}, {v})" for f, n, v in p["exc_isa"]], 3) + "\n\n"
-    body += "/- devices/__init__.py `PhysicalDevice.request` / `async_setup`, devices/ecomax.py `EcoMAX.async_setup` -/\n"
-    body += f"/-- the loop test of `request` is `{p['request_loop_cond']}`: (retries, 1 = the loop body runs / 0 = it does not) -/\n"
-    body += "def requestLoopTest : List (Nat × Nat) := [" + ", ".join(f"({a}, {b})" for a, b in p["request_loop_test"]) + "]\n"
-    body += "def requestRetryOn : List String := " + strs(p["request_retry_on"]) + "\n"
-    body += "def requestTryCalls : List String := " + strs(p["request_try_calls"]) + "\n"
-    body += f"def requestRaises : String := {lean_str(p['request_raises'])}\n"
-    body += f"def requestRaiseArgs : Nat := {p['request_raise_args']}\n"
-    body += f"def setupReturnExceptions : Bool := {'true' if p['setup_return_exceptions'] else 'false'}\n"
-    body += f"/-- the error list is `{p['setup_errors_expr']}`: position in the exception's arguments -/\n"
-    body += f"def setupErrorsArgIndex : Nat := {p['setup_errors_arg_index']}\n"
+    body += ("/-- devices/__init__.py `PhysicalDevice.request`, probed for an unanswered request: (retries, transmissions, class raised,\n"
+             "    position of the frame type in the exception's arguments) -/\n")
+    body += "def requestProbe : List (Nat × Nat × String × Nat) := [" + ", ".join(
+        f"({a}, {b}, {lean_str(c)}, {d_})" for a, b, c, d_ in p["request_probe"]) + "]\n"
+    body += "/-- `PhysicalDevice.async_setup`, probed: the failed frame types end up in `frame_errors`, in order, and `loaded` is set -/\n"
+    body += f"def setupErrorsProbe : Nat := {p['setup_errors_probe']}\n"
+    body += "/-- `EcoMAX.async_setup`, probed: the data names whose arrival makes the requests start; the frame types requested, in order -/\n"
     body += "def setupGate : List String := " + strs(p["setup_gate"]) + "\n"
+    body += "def setupRequestOrder : List Nat := [" + ", ".join(str(x) for x in p["setup_request_order"]) + "]\n"
     body += "def setupFramesOfDevice : List (Nat × String) := " + lean_list(
         [f"({a}, {lean_str(b)})" for a, b in p["setup_frames_of_device"]], 3) + "\n\n"
-    body += ("/-- (class, event name, handler subscribed in __init__, 1 = the handler awaits product information / 0 = it does not /\n"
-             "    2 = not a method of the class) -/\n")
+    body += ("/-- (class, event name, handler subscribed by a fresh object, 1 = the handler blocks until product information is there /\n"
+             "    0 = it does not / 2 = it blocks for another reason) -/\n")
     body += "def handlerWaitsProduct : List (String × String × String × Nat) := " + lean_list(
         [f"({lean_str(c)}, {lean_str(e)}, {lean_str(m)}, {w})" for c, e, m, w in p["handler_waits_product"]], 2) + "\n\n"
     body += "end PlumVerif.Gen\n"
